@@ -406,3 +406,37 @@ def charstring_primitive(ctx):
       '(no ASCII shortcut: "\\r\\n" is one cluster) -- and byte lengths are never narrowed')
 def r6(ctx):
     charstring_primitive(ctx)
+
+
+ASCII_WS = re.compile(r'ascii_whitespace|trim_ascii')
+
+
+@rule('C11', 'R-C11-7', 'T10 WHO (no ASCII-only whitespace classifier in the normal form code)',
+      'clean, word_boundaries, whitespace::remove, whitespace::full, Character::is_whitespace and unicode::is_whitespace (and their closures) '
+      'neither call nor pass along an ASCII-only whitespace classifier (split_ascii_whitespace, is_ascii_whitespace, trim_ascii*): ASCII '
+      'whitespace is a strict subset of Unicode White_Space even for pure ASCII text (U+000B vertical tab), so a fast path built on it '
+      'keeps a separator the normal form must collapse')
+def r7(ctx):
+    from rules.common import closures_in
+    n = 0
+    for fn in ('text::clean', 'text::word_boundaries', 'whitespace::remove', 'whitespace::full', WS, 'unicode::is_whitespace'):
+        b0 = ctx.body(fn)
+        for b in [b0] + closures_in(ctx, b0):
+            n += 1
+            hits = []
+            for t in b.calls():
+                if any(ASCII_WS.search(nm) for nm in t.callee_names()):
+                    hits.append((t.span, [nm for nm in t.callee_names() if ASCII_WS.search(nm)][0]))
+                for o in t.args:
+                    if o.fn_name() and ASCII_WS.search(o.fn_name()):
+                        hits.append((t.span, o.fn_name()))
+            for s in b.stmts():
+                if s.kind == 'assign':
+                    for o in s.rv.ops:
+                        if o.fn_name() and ASCII_WS.search(o.fn_name()):
+                            hits.append((s.span, o.fn_name()))
+            ctx.require(not hits, b, 'no-ascii-whitespace|' + b.path.split('::', 1)[-1], '%s uses no ASCII-only whitespace classifier' % b.path,
+                        '%s classifies whitespace with %s (line %d): U+000B is Unicode White_Space but not ASCII whitespace, the normal form '
+                        'keeps it' % (b.path, hits[0][1] if hits else '', hits[0][0]['line'] if hits else 0), hits[0][0] if hits else None)
+    if n < 6:
+        raise AnchorMissing('normal form functions')
